@@ -454,3 +454,221 @@ def c06(tier, seed, scripts):
                              "ops": [o["op"] for o in ops]},
                     "steps": steps})
     return out
+
+
+# ------------------------------------------------------------------- C12/C13/C17/C18 (driver)
+
+def qpack_section(lines):
+    return [0, 0] + [b for l in lines for b in l]
+
+
+def q_idx(i):
+    return prefix_int(0xC0, 6, i)
+
+
+def prefix_int(high, n, value):
+    mask = (1 << n) - 1
+    if value < mask:
+        return [high | value]
+    out = [high | mask]
+    rem = value - mask
+    while rem >= 128:
+        out.append((rem & 0x7F) | 0x80)
+        rem >>= 7
+    out.append(rem)
+    return out
+
+
+def q_lit_nameref(idx, value):
+    return prefix_int(0x50, 4, idx) + prefix_int(0x00, 7, len(value)) + list(value)
+
+
+def q_lit_lit(name, value):
+    return prefix_int(0x20, 3, len(name)) + list(name) + prefix_int(0x00, 7, len(value)) + list(value)
+
+
+def request_headers(method=b"CONNECT", scheme=b"https", protocol=b"webtransport",
+                    authority=b"localhost", path=b"/", extra=()):
+    lines = []
+    if method is not None:
+        lines.append(q_lit_nameref(15, method))
+    if scheme is not None:
+        lines.append(q_lit_nameref(22, scheme))
+    if authority is not None:
+        lines.append(q_lit_nameref(0, authority))
+    if path is not None:
+        lines.append(q_lit_nameref(1, path))
+    if protocol is not None:
+        lines.append(q_lit_lit(b":protocol", protocol))
+    for k, v in extra:
+        lines.append(q_lit_lit(k, v))
+    return qpack_section(lines)
+
+
+GREASE_T = [0x21, 0x21 + 0x1F * 3, 0x21 + 0x1F * 1000, 0x21 + 0x1F * 100000000, 0x21 + 0x1F * ((1 << 50) + 1)]
+UNKNOWN_FRAME_T = [0x0F, 0x3F, 0x4242, 0x424242, (1 << 40) + 3]
+UNKNOWN_STREAM_T = [0x3F, 0x4243, 0x424243, (1 << 40) + 5]
+
+
+def _uni_streams(live):
+    """(name, bytes, end, extra app/peer steps kind)"""
+    S = []
+    S.append(("ctrl_dup", [0x00] + frame(4, SETTINGS_PAYLOAD), "open"))
+    S.append(("qenc", [0x02, 0x20], "open"))
+    S.append(("qdec", [0x03], "open"))
+    S.append(("qenc_fin", [0x02], "fin"))
+    S.append(("qdec_reset", [0x03, 0x80], "reset"))
+    for i, t in enumerate(GREASE_T[:3]):
+        S.append(("grease_uni%d" % i, varint(t) + frame(0, b"xx") + [0xFF] * 3, ["open", "fin", "reset"][i % 3]))
+    for i, t in enumerate(UNKNOWN_STREAM_T):
+        S.append(("unknown_uni%d" % i, varint(t) + frame(4, SETTINGS_PAYLOAD) + [0x41, 0x01], ["fin", "open", "reset", "fin"][i]))
+    S.append(("wt_live", wt_uni_preamble(live) + [1, 2, 3], "fin"))
+    S.append(("wt_foreign4", wt_uni_preamble(live + 4) + [1, 2, 3], "open"))
+    S.append(("wt_foreign_big", wt_uni_preamble((1 << 40) * 4) + [9], "open"))
+    for sid in (1, 2, 3):
+        S.append(("wt_badsid%d" % sid, wt_uni_preamble(live + sid) + [0], "open"))
+    S.append(("trunc_type_fin", [0x40], "fin"))
+    S.append(("trunc_type_reset", [0x80, 0x00], "reset"))
+    S.append(("trunc_wt_sid_fin", [0x40, 0x54, 0x40], "fin"))
+    S.append(("empty_fin", [], "fin"))
+    S.append(("empty_reset", [], "reset"))
+    return S
+
+
+def _bi_streams(live, server):
+    S = []
+    S.append(("wt_live", wt_bi_preamble(live) + [7, 7], "fin"))
+    S.append(("wt_foreign4", wt_bi_preamble(live + 4) + [7], "open"))
+    for sid in (1, 2, 3):
+        S.append(("wt_badsid%d" % sid, wt_bi_preamble(live + sid), "open"))
+    S.append(("grease_then_fin", frame(GREASE_T[1], b"g"), "fin"))
+    S.append(("unknown_then_fin", frame(UNKNOWN_FRAME_T[2], frame(4, [8, 1])), "fin"))
+    S.append(("empty_fin", [], "fin"))
+    S.append(("trunc_frame_fin", [0x01, 0x05, 0x00], "fin"))
+    S.append(("trunc_type_fin", [0x40], "fin"))
+    S.append(("oversize", varint(1) + varint(4097) + [0] * 10, "open"))
+    if server:
+        S.append(("data_first", frame(0, b"dd"), "open"))
+        S.append(("settings_first", frame(4, [8, 1]), "open"))
+        S.append(("grease_then_data", frame(GREASE_T[0], b"") + frame(0, b"x"), "open"))
+        S.append(("unknown_then_settings", frame(UNKNOWN_FRAME_T[0], b"") + frame(4, []), "open"))
+        S.append(("get_request", frame(1, request_headers(method=b"GET", protocol=None)), "open"))
+        S.append(("no_protocol", frame(1, request_headers(protocol=None)), "open"))
+        S.append(("wrong_protocol", frame(1, request_headers(protocol=b"websocket")), "open"))
+        S.append(("http_scheme", frame(1, request_headers(scheme=b"http")), "open"))
+        S.append(("no_authority", frame(1, request_headers(authority=None)), "open"))
+        S.append(("no_path", frame(1, request_headers(path=None)), "open"))
+        S.append(("no_method", frame(1, request_headers(method=None)), "open"))
+        S.append(("bad_qpack_dyn", frame(1, [0, 0, 0x80]), "open"))
+        S.append(("bad_qpack_idx", frame(1, [0, 0, 0xFF, 0x40]), "open"))
+        S.append(("bad_qpack_trunc", frame(1, [0, 0, 0x51, 0x05, 0x61]), "open"))
+        S.append(("grease_unknown_then_get", frame(GREASE_T[2], b"zz") + frame(UNKNOWN_FRAME_T[1], [0, 0]) +
+                  frame(1, request_headers(method=b"GET", protocol=None)), "open"))
+    return S
+
+
+def _ctrl_conts():
+    S = []
+    S.append(("data", frame(0, b"x"), "open"))
+    S.append(("headers", frame(1, [0, 0]), "open"))
+    S.append(("settings2", frame(4, []), "open"))
+    S.append(("wtframe", wt_bi_preamble(0), "open"))
+    for i, t in enumerate(GREASE_T):
+        S.append(("grease%d" % i, frame(t, b"g" * i), "open"))
+    for i, t in enumerate(UNKNOWN_FRAME_T):
+        S.append(("unknown%d" % i, frame(t, [[], [0, 0], frame(0, b"x"), wt_bi_preamble(1), frame(4, [8, 1])][i]), "open"))
+    S.append(("unknown_then_data", frame(0x0F, [0x04, 0x00]) + frame(0, b""), "open"))
+    S.append(("grease_then_settings", frame(0x21, b"") + frame(4, [8, 1]), "open"))
+    S.append(("oversize", varint(0x21) + varint(4097) + [0] * 4, "open"))
+    S.append(("oversize_data", varint(0) + varint(1 << 20), "open"))
+    S.append(("fin", [], "fin"))
+    S.append(("reset", [], "reset"))
+    S.append(("trunc_fin", [0x21, 0x05, 0x00], "fin"))
+    S.append(("grease_fin", frame(0x21, b"abc"), "fin"))
+    return S
+
+
+def _req_conts():
+    S = []
+    S.append(("settings", frame(4, []), "open"))
+    S.append(("wtframe", wt_bi_preamble(0), "open"))
+    S.append(("grease", frame(GREASE_T[1], b"gg"), "open"))
+    S.append(("unknown", frame(UNKNOWN_FRAME_T[3], frame(0, close_capsule_frame(1, b"x"))), "open"))
+    S.append(("trailers", frame(1, [0, 0]), "open"))
+    S.append(("unknown_capsule", frame(0, capsule(0x1234, b"abc")), "open"))
+    S.append(("drain_capsule", frame(0, capsule(0x78AE, b"")), "open"))
+    return S
+
+
+def c12(tier, seed, want=("C12", "C13", "C17", "C18")):
+    rng = random.Random(seed * 7919 + 12)
+    out = []
+    n = 0
+    live = 0
+
+    def build(role, streams, meta):
+        """streams: list of (dir, name, bytes, end) in order."""
+        nonlocal n
+        steps = []
+        for k, (d, name, bs, end) in enumerate(streams):
+            tag = d if d in ("ctrl", "req") else "t%d" % k
+            if d in ("open_uni", "open_bi"):
+                steps.append(step("peer", d, tag=tag))
+            if bs:
+                steps.append(step("peer", "write", tag=tag, bytes=bs))
+            steps.append(sleep(40))
+            if end in ("fin", "reset"):
+                steps.append(step("peer", end, tag=tag, code=v62(0x10C)) if end == "reset" else step("peer", "fin", tag=tag))
+                steps.append(sleep(40))
+            if name.startswith("wt_"):
+                acc = "accept_uni" if d == "open_uni" else "accept_bi"
+                ms = 2000 if name == "wt_live" else 350
+                steps.append(step("app", acc, tag=tag if name == "wt_live" else "x%d" % k, ms=ms))
+                if name != "wt_live":
+                    steps.append(step("peer", "stopped", tag=tag, ms=1500))
+            if name in ("get_request", "no_protocol", "wrong_protocol", "http_scheme", "no_authority",
+                        "no_path", "no_method", "grease_unknown_then_get"):
+                steps.append(step("peer", "stopped", tag=tag, ms=1500))
+        steps += [step("peer", "open_uni", tag="probe"),
+                  step("peer", "write", tag="probe", bytes=wt_uni_preamble(live) + [0x70]),
+                  step("app", "accept_uni", tag="probe", ms=2500)]
+        out.append({"scn": "C12-%04d" % n, "role": role, "peer": "raw", "settle_ms": 120,
+                    "meta": dict(meta, prop="C12", names=[s[1] for s in streams]), "steps": steps})
+        n += 1
+
+    for role in ("server", "client"):
+        unis = [("open_uni",) + s for s in _uni_streams(live)]
+        bis = [("open_bi",) + s for s in _bi_streams(live, role == "server")]
+        ctrls = [("ctrl",) + s for s in _ctrl_conts()]
+        reqs = [("req",) + s for s in _req_conts()]
+        singles = unis + bis + ctrls + reqs
+        for s in singles:
+            build(role, [s], {"depth": 1})
+        # pairs: duplicates of critical streams, noise before an offender, noise before a healthy stream
+        by = {x[1]: x for x in unis}
+        byb = {x[1]: x for x in bis}
+        byc = {x[1]: x for x in ctrls}
+        pairs = [[by["qenc"], by["qenc"]], [by["qdec"], by["qdec"]], [by["qenc"], by["qdec"]],
+                 [by["qenc"], by["qenc_fin"]], [by["qdec"], by["qenc"]],
+                 [by["unknown_uni0"], by["wt_live"]], [by["grease_uni1"], by["ctrl_dup"]],
+                 [by["unknown_uni1"], by["unknown_uni2"]], [by["wt_foreign4"], by["wt_live"]],
+                 [by["trunc_type_fin"], by["wt_live"]], [by["empty_reset"], by["qenc"]],
+                 [byc["grease2"], by["wt_live"]], [byc["unknown3"], byb["wt_live"]],
+                 [byb["wt_foreign4"], byb["wt_live"]], [byb["empty_fin"], byb["wt_live"]],
+                 [byc["unknown2"], byc["data"]], [byc["grease0"], byc["settings2"]]]
+        if role == "server":
+            pairs += [[byb["get_request"], byb["wt_live"]], [byb["no_protocol"], byb["data_first"]],
+                      [by["unknown_uni3"], byb["get_request"]]]
+        for p in pairs:
+            build(role, p, {"depth": 2})
+        if tier == "thorough":
+            pool = [x for x in singles if x[1] not in ("ctrl_dup",)]
+            for _ in range(150):
+                k = rng.choice([2, 3])
+                seq = [rng.choice(pool) for _ in range(k)]
+                # a continuation tag may appear only once per scenario
+                names = [s[0] for s in seq if s[0] in ("ctrl", "req")]
+                if len(names) != len(set(names)):
+                    continue
+                build(role, seq, {"depth": k})
+    return out
